@@ -215,7 +215,9 @@ def cursor(prog: Program, rep: Report) -> None:
         rd = [n for n in walk_no_nested(nx.node) if isinstance(n, ast.Subscript) and unparse(n) == "self._B[self._index]"][:1]
     inc = [n for n in walk_no_nested(nx.node) if (increment_of(n) or ("", 0))[0] == "self._index"]
     rep.check(rule, nx.qual, "frame taken at the cursor before it is advanced", len(rd) == 1 and bool(inc) and rd[0].lineno < inc[0].lineno, what_bad="the frame of the next release time is returned", what_ok="self._B[self._index], then += 1", loc=nx.loc())
-    guard = [n for n in walk_no_nested(nx.node) if isinstance(n, ast.If) and unparse(n.test) in ("self._index >= len(self.times)", "self._index >= len(self._B)")]
+    from ..program import canon_compare_text
+
+    guard = [n for n in walk_no_nested(nx.node) if isinstance(n, ast.If) and canon_compare_text(n.test) in ("len(self.times) <= self._index", "len(self._B) <= self._index")]
     rep.check(rule, nx.qual, "guard against running past the table", bool(guard), what_bad="no StopIteration guard", what_ok="guarded", loc=nx.loc())
 
 
@@ -486,6 +488,10 @@ def run(prog: Program, rep: Report, tier: str) -> None:
     positions(prog, rep)
     continuous(prog, rep)
     api_conformance(prog, rep)
+    from ..share import share
+
+    share(prog, rep, "C18", ("R18.6",), "R04.9", "a version-1 configuration reaches the releaser with the same keys as its version-2 spelling", 2, only=lambda o: "release" in o.construct.lower() or "particle_release" in o.construct)
+
 
 
 from ..selftest import Mut  # noqa: E402
